@@ -16,6 +16,7 @@ import (
 	"go/token"
 	"os"
 	"path/filepath"
+	"regexp"
 	"sort"
 	"strconv"
 	"strings"
@@ -759,8 +760,77 @@ func main() {
 	}
 	b.WriteString("]\n\n")
 	b.WriteString("/-- the loop around it: what is ranged over, the guard that skips an index, how `command` is made, what the stdin condition is -/\ndef hookLoop : List String := " + leanList(hg) + "\n\n")
+	/* how jtp reads from the connection */
+	b.WriteString("/-- every method called on a *bufio.Reader variable in jtp/jtp.go, with its arguments, and what the JSON decoder is built on, in source order -/\ndef jtpReads : List String := " + leanList(jtpReads(parseFile(root, "jtp/jtp.go"))) + "\n\n")
+	/* the decision skeleton of config.postprocess */
+	b.WriteString("/-- every top-level statement of config.postprocess, in order: conversions, rejections (with the key named in the message), early acceptance, anything else -/\ndef postprocessSkeleton : List String := " + leanList(postprocessSkeleton(parseFile(root, "config/config.go"))) + "\n\n")
 	b.WriteString("end Generated\n")
 	fmt.Print(b.String())
+}
+
+var keyInMessage = regexp.MustCompile(`key ([a-z_.]+) is invalid`)
+
+func postprocessSkeleton(f *ast.File) []string {
+	out := []string{}
+	for _, d := range f.Decls {
+		fd, ok := d.(*ast.FuncDecl)
+		if !ok || fd.Name.Name != "postprocess" {
+			continue
+		}
+		describeReturn := func(rs *ast.ReturnStmt) string {
+			if len(rs.Results) == 1 {
+				if id, ok := rs.Results[0].(*ast.Ident); ok && id.Name == "nil" {
+					return "accept"
+				}
+				msg := ""
+				ast.Inspect(rs.Results[0], func(n ast.Node) bool {
+					if bl, ok := n.(*ast.BasicLit); ok && msg == "" {
+						if m := keyInMessage.FindStringSubmatch(bl.Value); m != nil {
+							msg = m[1]
+						}
+					}
+					return true
+				})
+				return "reject " + msg
+			}
+			return "return?"
+		}
+		for _, st := range fd.Body.List {
+			switch x := st.(type) {
+			case *ast.DeclStmt:
+				out = append(out, "declare")
+			case *ast.AssignStmt:
+				desc := []string{}
+				for _, l := range x.Lhs {
+					desc = append(desc, exprString(l))
+				}
+				rhs := []string{}
+				for _, r := range x.Rhs {
+					rhs = append(rhs, exprFull(r))
+				}
+				out = append(out, strings.Join(desc, ",")+x.Tok.String()+strings.Join(rhs, ","))
+			case *ast.IfStmt:
+				body := []string{}
+				for _, b := range x.Body.List {
+					if rs, ok := b.(*ast.ReturnStmt); ok {
+						body = append(body, describeReturn(rs))
+					} else {
+						body = append(body, "<stmt>")
+					}
+				}
+				els := ""
+				if x.Else != nil {
+					els = " else <...>"
+				}
+				out = append(out, "if "+exprFull(x.Cond)+" { "+strings.Join(body, "; ")+" }"+els)
+			case *ast.ReturnStmt:
+				out = append(out, describeReturn(x))
+			default:
+				out = append(out, fmt.Sprintf("<%T>", st))
+			}
+		}
+	}
+	return out
 }
 
 func hookSubstitutions(f *ast.File) ([]keyCase, []string) {
@@ -853,6 +923,15 @@ func exprFull(e ast.Expr) string {
 	}
 	if at, ok := e.(*ast.ArrayType); ok {
 		return "[]" + exprString(at.Elt)
+	}
+	if be, ok := e.(*ast.BinaryExpr); ok {
+		return exprFull(be.X) + be.Op.String() + exprFull(be.Y)
+	}
+	if ue, ok := e.(*ast.UnaryExpr); ok {
+		return ue.Op.String() + exprFull(ue.X)
+	}
+	if pe, ok := e.(*ast.ParenExpr); ok {
+		return "(" + exprFull(pe.X) + ")"
 	}
 	return exprString(e)
 }
@@ -978,4 +1057,26 @@ func orZero(s string) string {
 		return "0"
 	}
 	return s
+}
+
+func jtpReads(f *ast.File) []string {
+	out := []string{}
+	ast.Inspect(f, func(n ast.Node) bool {
+		ce, ok := n.(*ast.CallExpr)
+		if !ok {
+			return true
+		}
+		if se, ok := ce.Fun.(*ast.SelectorExpr); ok {
+			if id, ok := se.X.(*ast.Ident); ok {
+				if id.Name == "buf" {
+					out = append(out, exprFull(ce))
+				}
+				if id.Name == "bufio" || (id.Name == "json" && se.Sel.Name == "NewDecoder") {
+					out = append(out, exprFull(ce))
+				}
+			}
+		}
+		return true
+	})
+	return out
 }
